@@ -2,9 +2,58 @@
 from harness import k_api, k_qualitative, k_select, k_transform
 
 
+NAMES = ["size", "size_log", "size_1", "size_10", "log", "1"]  # feature names contained in one another
+
+
+def h_summary_feature(ctx, n_feats, rot):
+    """O16.6: summary(feature) has the rows of that feature only (= the rows summary() gives for it); a name that is not a
+    kept feature is refused with AssertionError."""
+    import numpy as np
+
+    from AutoCarver.discretizers import GroupedList
+    from AutoCarver.discretizers.utils.base_discretizers import BaseDiscretizer
+    from symx import Violation
+
+    names = (NAMES[rot:] + NAMES[:rot])[:n_feats]
+    vo, dt = {}, {}
+    for i, nm in enumerate(names):
+        if i % 2 == 0:
+            vo[nm] = GroupedList({float(i + 1): [float(i + 1)], float("inf"): [float("inf")]})
+            dt[nm] = "float"
+        else:
+            vo[nm] = GroupedList({"a": ["b", "a"], f"c{i}": [f"c{i}"]})
+            dt[nm] = "str"
+    d = BaseDiscretizer(list(names), values_orders=vo, input_dtypes=dt, output_dtype="str", str_nan="__NAN__", dropna=True, copy=True, verbose=False)
+    d.fit()
+    full = d.summary().reset_index().to_dict("records")
+    asked = (names + ["size_", "siz", "size_100", "ize"])[ctx.choose("asked", len(names) + 4)]
+    try:
+        sf = d.summary(asked)
+    except AssertionError:
+        ctx.require(asked not in names, "C16.summary-missing-feature", f"summary({asked!r}) refused although {asked!r} is a kept feature of {names}")
+        return dict(counters={"refused": 1}, sample=dict(names=names, asked=asked))
+    except Violation:
+        raise
+    except Exception as e:
+        ctx.require(False, "C16.summary-internal-error", f"summary({asked!r}) raised {type(e).__name__}: {str(e)[:120]}")
+    recs = sf.reset_index().to_dict("records")
+    ctx.require(asked in names, "C16.summary-other-feature", f"summary({asked!r}) answered with rows of {sorted({r['feature'] for r in recs})} although {asked!r} is not a kept feature of {names}")
+    ctx.require(all(r["feature"] == asked for r in recs), "C16.summary-other-feature", f"summary({asked!r}) contains rows of {sorted({r['feature'] for r in recs})} (kept features {names})")
+    want = [r for r in full if r["feature"] == asked]
+    ctx.require([(r["label"], str(r["content"])) for r in recs] == [(r["label"], str(r["content"])) for r in want], "C16.summary-rows",
+                f"summary({asked!r}) rows differ from the rows summary() gives for that feature")
+    return dict(counters={"ok": 1}, sample=dict(names=names, asked=asked, rows=len(recs)))
+
+
 def obligations(tier):
     quick = tier == "quick"
+    from symx import Obligation
+
     return [
+        Obligation(name="O16.6 summary(feature) holds the rows of that feature only, for feature names contained in one another; unknown names are refused",
+                   harness=h_summary_feature, jobs=[dict(n_feats=n, rot=r) for n in (2, 4, 6) for r in (0, 1, 3)], encodes=["BaseDiscretizer.summary"],
+                   bounds="2-6 kept features named size, size_log, size_1, size_10, log, 1 (quantitative and qualitative alternating); requested name solver-chosen among the kept names and four near misses",
+                   twin_every=1),
         k_api.obligation_qual(tier, {"C16"}, "O16.5 end to end on qualitative and ordinal features: summary partitions the known values and agrees with transform"),
         k_api.obligation(tier, {"C16"}, "O16.4 end to end: summary() lists exactly the kept features; last viable history combination induces the fitted row partition; one raw-distribution entry",
                          ["BinaryCarver", "ContinuousCarver"], ns=[4], max_pats=6 if quick else 14, companions=not quick),
